@@ -267,7 +267,7 @@ def plan(pid, tier, seed):
                                 steps=gen.flush_history(rng, 30 if q else 80, cfg, faults=rng.choice([0, 0, 1, 2, 3]))))
             return out
         P["gen"].append(g)
-        P["need"] = dict(cbs=1500)
+        P["need"] = dict(calls=4000, fs=10000)   # (not `cbs`: callbacks that never come are a violation, not vacuity)
     elif pid == "C08":
         mc("MC_Conc", "MC_C08_q.cfg", 800 if q else 3000)
         mc("MC_Conc", "MC_C08_f.cfg" if q else "MC_C08_t.cfg", 800 if q else 8000)
